@@ -106,6 +106,12 @@ func evalExecBlock(vm *r.VM, execBlock *syntax.ExecBlock, params []r.Element) (r
 	// 1.1 check param length
 	inputParamNum := len(execBlock.InputBlock)
 	if len(params) != inputParamNum {
+		// none of the body runs - the call never starts: its frame (pushed by whoever called
+		// this block, and still without a line of its own) must not show up in the error
+		// report as a call made from line 1 of the callee's module
+		if cf := vm.GetCurrentCallFrame(); cf != nil && cf.IsFunctionCallFrame() {
+			vm.PopCallFrame()
+		}
 		return nil, zerr.MismatchParamLengthError(inputParamNum, len(params))
 	}
 
